@@ -31,6 +31,11 @@ pub struct Case {
     pub max_try: usize,
     pub cancel: Cancel,
     pub cfg: SimCfg,
+    /// history: the observed plan is the SECOND call on the same planner and robot; the first one
+    /// (goal -> start, never cancelled... it shares the flag) only leaves behind whatever state the
+    /// implementation keeps
+    #[serde(default)]
+    pub warm_up: bool,
 }
 
 #[derive(Clone, Debug)]
@@ -49,6 +54,7 @@ pub struct Fail {
 pub fn execute(robot: &Arc<KinematicsWithShape>, case: &Case, keep_events: bool) -> SimOut<Obs> {
     let robot = robot.clone();
     let (start, goal, step, max_try, cancel) = (case.start, case.goal, case.step, case.max_try, case.cancel);
+    let warm_up = case.warm_up;
     sim::simulate(&case.cfg, move || {
         let stop = Arc::new(AtomicBool::new(false));
         probe::begin(Some(stop.clone()), cancel, keep_events);
@@ -65,6 +71,13 @@ pub fn execute(robot: &Arc<KinematicsWithShape>, case: &Case, keep_events: bool)
             _ => None,
         };
         let planner = RRTPlanner { step_size_joint_space: step, max_try, debug: false };
+        if warm_up {
+            // not observed: a previous planning request with its own flag
+            let other = AtomicBool::new(false);
+            probe::pause(true);
+            let _ = planner.plan_rrt(&goal, &start, robot.as_ref(), &other);
+            probe::pause(false);
+        }
         let result = planner.plan_rrt(&start, &goal, robot.as_ref(), &stop);
         if let Some(h) = canceller {
             h.join().unwrap();
@@ -298,6 +311,11 @@ fn simplifications(case: &Case) -> Vec<Case> {
         c.cell.safety.special.retain(|s| s.0 as usize != J_BASE && s.1 as usize != J_BASE);
         out.push(c);
     }
+    if case.warm_up {
+        let mut c = case.clone();
+        c.warm_up = false;
+        out.push(c);
+    }
     if case.max_try > 1 {
         for m in [1, case.max_try / 2] {
             let mut c = case.clone();
@@ -508,7 +526,8 @@ pub fn gen_case(seed: u64, shard: u64, run: u64, t: &Tier) -> Option<Case> {
     let mut cfg = SimCfg::swarm(&mut knobs, sched_seed, rng_seed, 3_000_000);
     cfg.rng = RngSpec::Stream { seed: rng_seed, adversarial, abs, period: 6 };
     cfg.inner_full = knobs.chance(0.3);
-    Some(Case { cell, start, goal, step, max_try, cancel: Cancel::Never, cfg })
+    let warm_up = knobs.chance(0.2);
+    Some(Case { cell, start, goal, step, max_try, cancel: Cancel::Never, cfg, warm_up })
 }
 
 fn record(case: &Case, out: &SimOut<Obs>, tally: &mut Tally, scen_hash: u64) {
@@ -520,6 +539,9 @@ fn record(case: &Case, out: &SimOut<Obs>, tally: &mut Tally, scen_hash: u64) {
     tally.bump("random_draws_adversarial", c.n_rng_adversarial);
     tally.bump("par_calls", c.n_par_calls);
     tally.bump(&format!("pool_size_{:02}", case.cfg.pool), 1);
+    if case.warm_up {
+        tally.bump("history_plans_observed_after_a_previous_plan", 1);
+    }
     let cancel = match case.cancel {
         Cancel::Never => "fault_cancel_never",
         Cancel::Pre => "fault_cancel_before_call",
